@@ -213,7 +213,7 @@ def _srs_cases(ctx):
     stypes = ["absacce", "relacce", "relvelo", "reldisp", "pvelo", "pacce"]
     ics = ["zero", "shift", "mshift", "steady"]
     times = ["primary", "total", "residual"]
-    peaks = ["abs", "pos", "neg", "poss", "negs", "rms"]
+    peaks = ["abs", "pos", "neg", "poss", "negs", "rms", "rms", "callable-meansq"]
     n = ctx.pick(220, 1500)
     cases = []
     grid = list(itertools.product(stypes, ics, [False, True]))
@@ -228,9 +228,26 @@ def _srs_cases(ctx):
                 pattern=rng.choice(["none", "reverse", "random", "random", "first-last"]),
                 eqsine=rng.random() < 0.2, zero_freq=rng.random() < 0.15, dup_freq=rng.random() < 0.3,
                 seed=rng.randint(0, 10 ** 6),
+                # dtypes of the caller's arrays: the shared arrays of the parallel path are always double
+                fdtype=rng.choice(["float64", "float64", "float32", "int64"]),
+                sdtype=rng.choice(["float64", "float64", "float32", "int64"]),
             )
         )
     return cases
+
+
+def _meansq(resp):
+    """a user peak function (documented: any callable reducing axis 0)"""
+    return np.mean(resp * resp, axis=0)
+
+
+def _cast(a, dtype, scale):
+    """the same data handed over as float32 / integer arrays (integers: scaled and rounded first)"""
+    if not dtype or dtype == "float64":
+        return a
+    if dtype.startswith("int"):
+        return np.round(np.asarray(a) * scale).astype(dtype)
+    return np.asarray(a).astype(dtype)
 
 
 def _run_srs(c, parallel):
@@ -246,11 +263,13 @@ def _run_srs(c, parallel):
     if c.get("dup_freq") and c["LF"] >= 3:
         k = 1 + int(r.integers(0, c["LF"] - 1))
         freq[k] = freq[k - 1]  # repeated frequency (e.g. two stacked bands sharing an end point)
+    freq, sig = _cast(freq, c.get("fdtype"), 1.0), _cast(sig, c.get("sdtype"), 64.0)
     if parallel == "yes":
         _set_delays(c["LF"], c["pattern"], c["seed"])
+    peak = _meansq if c["peak"] == "callable-meansq" else c["peak"]
     with warnings.catch_warnings():
         warnings.simplefilter("ignore")
-        out = srs.srs(sig, 200.0, freq, 20.0, ic=c["ic"], stype=c["stype"], peak=c["peak"], eqsine=c["eqsine"],
+        out = srs.srs(sig, 200.0, freq, 20.0, ic=c["ic"], stype=c["stype"], peak=peak, eqsine=c["eqsine"],
                       time=c["time"], getresp=c["getresp"], parallel=parallel, maxcpu=c["maxcpu"], rolloff="none")
     return out
 
@@ -262,7 +281,8 @@ def _fde_cases(ctx):
         dict(resp=rng.choice(["absacce", "pvelo"]), LF=rng.randint(2, 9), N=rng.randint(400, 1500),
              nbins=rng.choice([8, 20, 300]), maxcpu=rng.choice([1, 2, 3, 5, 16]),
              pattern=rng.choice(["none", "reverse", "random", "first-last"]), dup_freq=rng.random() < 0.4,
-             seed=rng.randint(0, 10 ** 6))
+             seed=rng.randint(0, 10 ** 6), fdtype=rng.choice(["float64", "float64", "float32", "int64"]),
+             sdtype=rng.choice(["float64", "float64", "float32", "int64"]))
         for _ in range(n)
     ]
 
@@ -276,6 +296,7 @@ def _run_fde(c, parallel):
     if c.get("dup_freq") and c["LF"] >= 3:
         k = 1 + int(r.integers(0, c["LF"] - 1))
         freq[k] = freq[k - 1]
+    freq, sig = _cast(freq, c.get("fdtype"), 1.0), _cast(sig, c.get("sdtype"), 64.0)
     if parallel == "yes":
         _set_delays(c["LF"], c["pattern"], c["seed"])
     with warnings.catch_warnings():
